@@ -665,7 +665,7 @@ func TestC20Hazard(t *testing.T) {
 		peers := gen.Peers(r, 2)
 		self, other := peers[0], peers[1]
 		v := gen.SimpleVoucher("VT0", "v")
-		switch c.Index % 6 {
+		switch c.Index % 7 {
 		case 3:
 			// (ii) the responder's graphsync request (carrying its acceptance) is in the incoming-request
 			// hook while the same channel is being closed / failed: hook and cleanup meet
@@ -742,6 +742,50 @@ func TestC20Hazard(t *testing.T) {
 				f.tr.PauseChannel(bg, chid)
 			})
 			c.Count("hazard.cleanup-during-open", 1)
+		case 6:
+			// (vi) Stop arrives while block reports that reach their channel's data limit are in flight (the
+			// report that crosses the limit sends two or three events in a row, under the lock Stop needs)
+			for round := 0; round < 6; round++ {
+				f := newMgrFixPlain(c, self, nil)
+				f.val.SetOutcome(func(kind string, n int, ch datatransfer.ChannelID) (datatransfer.ValidationResult, error) {
+					return datatransfer.ValidationResult{Accepted: true, DataLimit: 1000}, nil
+				})
+				var chids []datatransfer.ChannelID
+				for i := 0; i < 12; i++ {
+					tid := datatransfer.TransferID(100*round + i + 1)
+					chid := datatransfer.ChannelID{Initiator: other, Responder: self, ID: tid}
+					req, _ := message.NewRequest(tid, false, true, &v, dummyCid, gen.AllSelector)
+					w, _ := doubles.Reencode(req)
+					if resp, _ := f.tp.Events().OnRequestReceived(chid, w.(datatransfer.Request)); resp != nil && resp.Accepted() {
+						f.tp.Events().OnTransferInitiated(chid)
+						chids = append(chids, chid)
+					}
+				}
+				delay := r.Intn(400)
+				c.HangCheck("C20", "stop-while-reports-reach-data-limit", 10*time.Second, func() {
+					var wg sync.WaitGroup
+					start := make(chan struct{})
+					for _, chid := range chids {
+						wg.Add(1)
+						go func(chid datatransfer.ChannelID) {
+							defer wg.Done()
+							<-start
+							f.tp.Events().OnDataQueued(chid, dummyLink, 1200, 1, true)
+							f.tp.Events().OnDataQueued(chid, dummyLink, 10, 2, true)
+						}(chid)
+					}
+					wg.Add(1)
+					go func() {
+						defer wg.Done()
+						<-start
+						doubles.Yield(delay)
+						f.m.Stop(bg)
+					}()
+					close(start)
+					wg.Wait()
+				})
+				c.Count("hazard.stop-vs-limit-reports", len(chids))
+			}
 		case 4, 5:
 			// (v) pause / resume of a channel while a graphsync message for the SAME channel is queued in
 			// the graphsync manager loop that serves the pause: the loop then runs the transport's hook
@@ -751,7 +795,7 @@ func TestC20Hazard(t *testing.T) {
 			var chid datatransfer.ChannelID
 			inLoop, release := make(chan struct{}, 1), make(chan struct{})
 			var deliver func()
-			if c.Index%6 == 4 {
+			if c.Index%7 == 4 {
 				tid := datatransfer.TransferID(21)
 				chid = datatransfer.ChannelID{Initiator: other, Responder: self, ID: tid}
 				req, _ := message.NewRequest(tid, false, true, &v, dummyCid, gen.AllSelector)
@@ -783,8 +827,8 @@ func TestC20Hazard(t *testing.T) {
 				default:
 				}
 			})
-			useResume := c.Index%12 >= 6
-			c.HangCheck("C20", fmt.Sprintf("pause-resume-while-message-queued-in-graphsync-loop case=%d resume=%v", c.Index%6, useResume), 6*time.Second, func() {
+			useResume := c.Index%14 >= 7
+			c.HangCheck("C20", fmt.Sprintf("pause-resume-while-message-queued-in-graphsync-loop case=%d resume=%v", c.Index%7, useResume), 6*time.Second, func() {
 				var wg sync.WaitGroup
 				wg.Add(2)
 				go func() { defer wg.Done(); deliver() }()
@@ -818,10 +862,10 @@ func TestC20Hazard(t *testing.T) {
 			c.HangCheck("C20", "manager-stop", 20*time.Second, func() { f.m.Stop(bg) })
 			c.Count("hazard.pause-vs-queued-graphsync-message", 1)
 		}
-		c.Mark("hazard=%d", c.Index%6)
+		c.Mark("hazard=%d", c.Index%7)
 		c.NonTrivial()
 		if c.Index < 3 {
-			c.Sample(map[string]any{"hazard": []string{"gs request carrying a dt cancel request", "OnChannelOpened refuses inside the outgoing-request hook", "CleanupChannel between OpenChannel and its outgoing-request hook", "incoming-request hook overlapping the ending of the same channel", "pause/resume while an incoming request for the channel is queued in graphsync's response manager loop", "pause/resume while an incoming response for the channel is queued in graphsync's request manager loop"}[c.Index%6]})
+			c.Sample(map[string]any{"hazard": []string{"gs request carrying a dt cancel request", "OnChannelOpened refuses inside the outgoing-request hook", "CleanupChannel between OpenChannel and its outgoing-request hook", "incoming-request hook overlapping the ending of the same channel", "pause/resume while an incoming request for the channel is queued in graphsync's response manager loop", "pause/resume while an incoming response for the channel is queued in graphsync's request manager loop", "Stop while block reports that reach the data limit are in flight"}[c.Index%7]})
 		}
 	})
 }
